@@ -734,6 +734,17 @@ theorem tie_stmtsInstallRegularDecision : Generated.stmtsInstallRegularDecision 
   "if pk.Origin != pkg.Origin && !isReplaced { return false, FileConflictError{ Path: header.Name, Origins: map[string]string{ pk.Name: pk.Origin, pkg.Name: pkg.Origin, }, } }",
   "if err := a.writeOneFile(header, r, true); err != nil { return false, err }"] : List String) := by rfl
 
+/-- where the two inputs of the streaming decision come from: `checksum` is the header's PAX record
+(`Entry.sum`), `replaceMap` holds the entries of `pkg.Replaces` as raw strings (`want.replaces.contains
+pk.name` in `decideStream`: no constraint is parsed — F07h) -/
+theorem tie_stmtsInstallRegularPre : Generated.stmtsInstallRegularPre = (["checksum, err := checksumFromHeader(header)",
+  "if err != nil { return false, err }",
+  "replaceMap := map[string]struct{}{}",
+  "for _, r := range pkg.Replaces { replaceMap[r] = struct{}{} }"] : List String) := by rfl
+
+/-- F07e: no function on the installation path applies an owner (`Model.nodeOwner` is constant 0:0) -/
+theorem tie_installChownCalls : Generated.installChownCalls = ([] : List String) := by rfl
+
 theorem tie_stmtsInstallRegularAfter : Generated.stmtsInstallRegularAfter = (["return true, nil"] : List String) := by rfl
 
 theorem tie_stmtsStreamDir : Generated.stmtsStreamDir = (["if fi, err := a.fs.Stat(header.Name); err == nil && fi.Mode()&os.ModeSymlink != 0 { if target, err := a.fs.Readlink(header.Name); err == nil { if fi, err = a.fs.Stat(target); err == nil && fi.IsDir() { break } } }",
